@@ -716,7 +716,7 @@ def run_c14(chk: Check) -> None:
     if len(chk.violations) < 5:
         sweeps.detector_abort_sweep(chk, 3 if quick else 12, 6 if quick else 24)
     if len(chk.violations) < 5:
-        sweeps.address_reuse_sweep(chk, 24 if quick else 160)
+        sweeps.address_reuse_sweep(chk, 44 if quick else 200)
     if not quick:
         sweeps.pairwise_history(chk)
         sweeps.fault_site_sweep(chk)
